@@ -22,18 +22,19 @@ LEVEL = "exploration"
 RULE = (
     "Histories (Hypothesis RuleBasedStateMachine, 25/50 steps) over an alphabet of 12 solve specifications (shapes 6x5, 8x8, 7x9, "
     "9x4; modes below/at/default; single and double precision; footprint and dispersion; single/multiple/unsorted levels; analytic; "
-    "halo default/0/fractional; two specs differ from another only in the domain resp. the profiles; the source array is one object per grid shape, refilled in place before every solve) and the operations set_threads(1..8), reset_fft_manager(), write-and-truncate the FFTW wisdom file "
+    "halo default/0/fractional; two specs differ from another only in the domain resp. the profiles; the source array is one object per grid shape, refilled in place before every solve) each solvable in three representations of the same argument values (C / Fortran / transposed-view source, tuples or lists of profile arrays, Python ints, floats, NumPy scalars or persistent NumPy arrays for domain, halo, measurement point, levels, modes and background; no argument may be modified in place), and the operations set_threads(1..8), reset_fft_manager(), write-and-truncate the FFTW wisdom file "
     "then reset. Model: the first result seen for (spec, threads) - every later result for the same key must be bit-identical; every "
     "result must agree with the same solve done as the only solve of a fresh spawned single-threaded process (one process per spec) to 1e-12 of the field maximum (double; "
     "1e-5 for single precision against its double-precision twin). Non-trivial = history with >= 2 thread settings, >= 1 reset and a "
     "repeat of a spec after a different shape was solved; distinct = canonical JSON of the step list."
 )
 ASSUMPTIONS = [
+    "the specs keep the shooting growth of the highest retained mode below e^2.1 (G <= 8): with the original G = 2e4 a one-ulp difference between thread settings is amplified to 3e-12 of the field maximum, i.e. the property's 1e-12 would be a statement about rounding amplification, not about purity",
     "thread interleavings inside numba/OpenMP/FFTW are sampled through thread counts and repetition, not owned by the harness",
     "the wisdom file is the one the FFT manager reads from the working directory (fftw_wisdom.pkl)",
 ]
 TOLERANCES = {"same key": "bit-identical", "across threads / processes": "1e-12 * max|field| (double)", "single vs double": "1e-5 * max|field|"}
-BUDGET = {"quick": dict(examples=120, shards=1), "thorough": dict(examples=300, shards=4, procs=4)}
+BUDGET = {"quick": dict(examples=200, shards=1), "thorough": dict(examples=400, shards=4, procs=4)}
 STEP_COUNT = {"quick": 25, "thorough": 50}
 
 
@@ -46,10 +47,10 @@ def _spec_inputs(k):
         (0, (4, 4), "single", False, 3, False, 0.0),
         (1, (8, 8), "double", True, [1, 4], False, None),
         (1, (8, 8), "single", True, [1, 4], False, None),
-        (2, (512, 512), "double", False, [5, 2, 0], False, 13.0),
+        (2, (512, 512), "double", False, [5, 2, 0], False, 250.0),
         (2, (6, 4), "double", True, 2, False, 0.0),
         (3, (512, 512), "double", False, 4, True, None),
-        (1, (4, 6), "double", False, [0, 5], False, 7.5),
+        (1, (4, 6), "double", False, [0, 5], False, 150.0),
         (3, (8, 4), "single", True, [2, 3], False, 0.0),
         (0, (512, 512), "double", True, 5, False, None),
         # same shape / modes / levels as spec 0 but another domain, resp. other profiles: guards against memoising on a partial key
@@ -72,18 +73,62 @@ def _spec_inputs(k):
     dscale = 1.5 if k == 10 else 1.0
     if k == 11:
         u, K = 0.8 * u, 1.3 * K
-    return dict(q=q, z=z, profiles=(u, v, K, 0.7 * K, 1.2 * K), domain=(12.0 * nx * dscale, 9.0 * ny), levels=lv, modes=modes,
-                meas_pt=(12.0 * (nx // 3), 9.0 * (ny // 2)) if fp else (0.0, 0.0), bg=1.0, footprint=fp, analytic=ana,
+    return dict(q=q, z=z, profiles=(u, v, K, 0.7 * K, 1.2 * K), domain=(240.0 * nx * dscale, 180.0 * ny), levels=lv, modes=modes,
+                meas_pt=(240.0 * (nx // 3), 180.0 * (ny // 2)) if fp else (0.0, 0.0), bg=1.0, footprint=fp, analytic=ana,
                 halo=halo, precision=prec)
 
 
 NSPEC = 12
 _QBUF = {}
+_PERSIST = {}
+
+
+class ArgumentMutated(Exception):
+    pass
 TWIN = {1: 0, 3: 2}  # single-precision spec -> its double-precision twin
 SHAPE_OF = [0, 0, 1, 1, 2, 2, 3, 1, 3, 0, 0, 0]
 
 
-def _solve(k):
+def _represent(a, rep):
+    """The same argument VALUES in another representation (rep 1, 2): memory layout, container and scalar types."""
+    if rep == 0:
+        return a
+    a = dict(a)
+
+    def as_int_if_integral(v):
+        return int(v) if v is not None and float(v).is_integer() else v
+
+    if rep == 1:
+        a["q"] = np.asfortranarray(a["q"])
+        a["domain"] = tuple(as_int_if_integral(v) for v in a["domain"])
+        a["meas_pt"] = [as_int_if_integral(v) for v in a["meas_pt"]]
+        a["halo"] = as_int_if_integral(a["halo"])
+        a["modes"] = list(a["modes"])
+        a["profiles"] = [np.array(p) for p in a["profiles"]]
+        a["bg"] = 1
+    else:
+        a["q"] = np.ascontiguousarray(a["q"].T).T  # transposed view
+        # (strided views of z / the profiles are NOT generated: the numba kernel rejects non-contiguous 1-D arrays with a
+        #  TypingError - a loud failure outside the listed properties, recorded in DESIGN.md section 8.5)
+        a["z"] = a["z"].copy()
+        a["profiles"] = tuple(p.astype(float, copy=True) for p in a["profiles"])
+        # array-valued arguments are persistent objects (one per spec), as a caller that loops over settings keeps
+        # them: an in-place update inside the solver would silently move the tower / domain for the next call
+        key = a["_k"]
+        if key not in _PERSIST:
+            _PERSIST[key] = {"domain": np.array(a["domain"], float), "meas_pt": np.array(a["meas_pt"], float),
+                             "levels": np.array(np.atleast_1d(a["levels"])), "orig": None}
+            _PERSIST[key]["orig"] = {n: _PERSIST[key][n].copy() for n in ("domain", "meas_pt", "levels")}
+        a["domain"], a["meas_pt"] = _PERSIST[key]["domain"], _PERSIST[key]["meas_pt"]
+        if np.ndim(a["levels"]) > 0:
+            a["levels"] = _PERSIST[key]["levels"]
+        a["halo"] = None if a["halo"] is None else np.float64(a["halo"])
+        a["modes"] = (np.int64(a["modes"][0]), np.int64(a["modes"][1]))
+        a["bg"] = np.float64(1.0)
+    return a
+
+
+def _solve(k, rep=0):
     from bldfm.solver import steady_state_transport_solver as S
 
     a = _spec_inputs(k)
@@ -92,8 +137,19 @@ def _solve(k):
     buf = _QBUF.setdefault(a["q"].shape, np.empty(a["q"].shape))
     buf[...] = a["q"]
     a["q"] = buf
+    a["_k"] = k
+    a = _represent(a, rep)
+    before = {n: np.array(a[n], copy=True) for n in ("q", "z", "domain", "meas_pt") if isinstance(a[n], np.ndarray)}
+    before.update({f"profiles[{i}]": p.copy() for i, p in enumerate(a["profiles"])})
+    if isinstance(a["levels"], np.ndarray):
+        before["levels"] = a["levels"].copy()
     g, c, f = S(a["q"], a["z"], a["profiles"], a["domain"], a["levels"], modes=a["modes"], meas_pt=a["meas_pt"],
                 srf_bg_conc=a["bg"], footprint=a["footprint"], analytic=a["analytic"], halo=a["halo"], precision=a["precision"])
+    now = dict(a)
+    now.update({f"profiles[{i}]": p for i, p in enumerate(a["profiles"])})
+    changed = [n for n, b in before.items() if not np.array_equal(np.asarray(now[n]), b)]
+    if changed:
+        raise ArgumentMutated(f"the solver modified its argument(s) {changed} in place (spec {k}, representation {rep})")
     return np.asarray(c), np.asarray(f)
 
 
@@ -196,13 +252,20 @@ class History:
             self.wisdom_cuts += 1
             return []
         if kind == "solve":
-            return self._solve(int(op[1]))
+            return self._solve(int(op[1]), int(op[2]) if len(op) > 2 else 0)
         raise ValueError(op)
 
-    def _solve(self, k):
+    def _solve(self, k, rep=0):
         fails = []
+        if rep:
+            self.reps = getattr(self, "reps", 0) + 1
         try:
-            c, f = _solve(k)
+            c, f = _solve(k, rep)
+        except ArgumentMutated as e:
+            for v in _PERSIST.values():  # restore, so that the search can go on
+                for n, o in v["orig"].items():
+                    v[n][...] = o
+            return [str(e)]
         except Exception as e:
             return [f"solve(spec {k}) raised {type(e).__name__}: {e} after history {self._pretty()}"]
         self.nsolves += 1
@@ -211,7 +274,7 @@ class History:
         if seen and any(s2 != sh for _, s2 in self.solved_shapes[seen[-1] + 1:]):
             self.repeat_after_other = True
         self.solved_shapes.append((k, sh))
-        key = (k, self.threads)
+        key = (k, self.threads, rep)
         if key in self.first:
             c0, f0 = self.first[key]
             if not (c.dtype == c0.dtype and np.array_equal(c, c0) and np.array_equal(f, f0)):
@@ -251,7 +314,8 @@ class History:
         out.nontrivial = len(self.thread_settings) >= 2 and self.resets >= 1 and self.repeat_after_other
         out.label(f"thread-settings={min(len(self.thread_settings), 4)}{'+' if len(self.thread_settings) >= 4 else ''}",
                   "with-reset" if self.resets else "no-reset", "wisdom-truncated" if self.wisdom_cuts else "wisdom-untouched",
-                  "repeat-after-other-shape" if self.repeat_after_other else "no-such-repeat")
+                  "repeat-after-other-shape" if self.repeat_after_other else "no-such-repeat",
+                  "other-representations" if getattr(self, "reps", 0) else "canonical-representation-only")
         return out
 
 
@@ -276,6 +340,10 @@ def machine(tier, stats, last_fail):
         @rule(k=st.integers(0, NSPEC - 1))
         def solve(self, k):
             self._do(["solve", k])
+
+        @rule(k=st.integers(0, NSPEC - 1), rep=st.integers(1, 2))
+        def solve_other_representation(self, k, rep):
+            self._do(["solve", k, rep])
 
         @rule(k=st.integers(0, NSPEC - 1))
         def solve_twice(self, k):
